@@ -78,6 +78,21 @@ Print from_cache.
 Print nx_prov.
 Print cache_step.
 
+(* Resolver.resolve as a whole (metaquery refusal, candidate names, then the loop with the
+   sufficient fuel): exactly one of the six documented results, or one of the two refusals that
+   happen before any query is sent - a metaquery, or a candidate name longer than 255 octets. *)
+Theorem documented_results_only : forall sc r rq ch e f ch' e',
+  NoDup (ids (r_servers r)) -> (forall i, 0 <= o_dur (sc i)) ->
+  resolve 0 sc r rq ch e = (f, ch', e') ->
+  (match f with
+   | FAnswer _ | FNoAnswer _ | FNXDOMAIN _ _ | FYXDOMAIN | FNoNameservers _ | FLifetime _ _ => True
+   | _ => False
+   end) \/
+  (f = FNoMetaqueries /\ (is_metatype (rq_rdtype rq) = true \/ is_metaclass (rq_rdclass rq) = true) /\ e' = e /\ ch' = ch) \/
+  (exists er, f = FLibError er /\ qnames_to_try r (rq_qname rq) (rq_search rq) = Lib er /\ e' = e /\ ch' = ch).
+Proof. exact resolve_documented_results. Qed.
+Print Assumptions documented_results_only.
+
 (* Candidate names: the search-list / ndots rule of _get_qnames_to_try ... *)
 Theorem qnames_rule : forall r qname search l,
   qnames_to_try r qname search = Ok l ->
